@@ -211,6 +211,31 @@ def run(ctx):
                     continue
                 if len(buf.getvalue().split('\n')) - 1 != N:
                     viol.append({'property': 'C16', 'kind': 'count', 'mode': 'honeywords', 'limit': N, 'witness': {'spec': spec, 'limit': N}})
+    # a ruleset in which almost every walk lands on the Markov structure (a training with a tiny coverage): hundreds of walks in a row
+    # produce no word, and --limit N must still give exactly N words, reproducibly
+    from lib_guesser.honeyword_session import HoneywordSession as _HS
+    heavy = {'terminals': {'D1': [['1', '0.5'], ['2', '0.5']], 'A2': [['ab', '1.0']], 'C2': [['LL', '0.5'], ['UL', '0.5']]},
+             'grammar': [['M', '0.97'], ['D1', '0.02'], ['A2D1', '0.01']], 'omen_prob': [['1', '0.5'], ['2', '0.25']], 'prince': [],
+             'omen': gen_omen.gen_omen(rng, ngram=2, nletters=2, maxlen_extra=1), 'encoding': 'utf-8', 'mode': 'markov-heavy'}
+    dh = common.write_ruleset(os.path.join(root, 'heavy'), heavy)
+    try:
+        pcfg_h = common.load_grammar(dh)
+        for mode_h, N in (('random_walk', ctx.scale(120, 600)), ('honeywords', ctx.scale(60, 300))):
+            outs_h = []
+            for rep in range(2 if mode_h == 'random_walk' else 1):
+                buf = io.StringIO()
+                with contextlib.redirect_stdout(buf), contextlib.redirect_stderr(io.StringIO()):
+                    _HS(pcfg_h, mode_h).run(limit=N)
+                outs_h.append(buf.getvalue())
+            cases += 1
+            dist['markov_heavy_runs'] = dist.get('markov_heavy_runs', 0) + 1
+            if len(outs_h[0].split('\n')) - 1 != N:
+                viol.append({'property': 'C16', 'kind': 'count', 'mode': mode_h, 'limit': N, 'lines': len(outs_h[0].split('\n')) - 1,
+                             'witness': {'spec': heavy, 'limit': N, 'mode': mode_h}})
+            if len(outs_h) == 2 and outs_h[0] != outs_h[1]:
+                viol.append({'property': 'C16', 'kind': 'random-walk-not-reproducible', 'witness': {'spec': heavy, 'limit': N, 'mode': mode_h}})
+    except Exception as e:
+        viol.append({'property': 'C16', 'kind': 'walk-raised', 'error': repr(e)[:200], 'mode': 'markov-heavy', 'witness': {'spec': heavy, 'limit': 100}})
     if ctx.driver_ok:
         out = common.run_driver(ops)
         for i, (a, b) in enumerate(zip(out, exp)):
@@ -254,7 +279,7 @@ def replay(ctx, payload):
         buf = io.StringIO()
         try:
             with contextlib.redirect_stdout(buf), contextlib.redirect_stderr(io.StringIO()):
-                HoneywordSession(pcfg, 'random_walk').run(limit=w['limit'])
+                HoneywordSession(pcfg, w.get('mode', 'random_walk')).run(limit=w['limit'])
             if len(buf.getvalue().split('\n')) - 1 != w['limit']:
                 out.append({'kind': 'count'})
         except Exception as e:
